@@ -43,6 +43,33 @@ CHECKS = {
                  "delivered stop reason, metric/log sink parity", "5/C14"),
     "C16": retry("M |= sleep-handler protocol monitor for all decision sequences, before_sleep present/absent, "
                  "policy-level / call-level / both placements (decoy callbacks), awaitable variants", "5/C16"),
+    "C07": ("model_checking",
+            "TLC exhaustive check of Breaker.tla (M vs reference) and of PolicyCall.tla + PolicyMon.tla (policy calls "
+            "in front of the breaker); graph replay on the real CircuitBreaker; every exported policy-level "
+            "behaviour replayed through Policy/AsyncPolicy call/execute with and without retry; TLC trace validation",
+            "M |= C07 at breaker level (reject while open up to the exact timeout, single probe, close clears history, "
+            "failed probe re-opens) and at policy level (no invocation and no record by a rejected call) for "
+            "sequences of calls with clock gaps around recovery_timeout_s; sequential histories only in this round",
+            "virtual clock; breaker observed through a delegating subclass; concurrent async interleavings are "
+            "covered by PolicyConc when built (see DESIGN)",
+            "5/C07"),
+    "C08": ("model_checking",
+            "TLC exhaustive check of PolicyCall.tla against PolicyMon.tla + replay of every exported behaviour + "
+            "fault enumeration on the real code (operation exit kinds, raising callbacks at each site, exceptions "
+            "thrown into the coroutine at every suspension point) with every recorded trace judged by TLC",
+            "M |= every admitted call settles exactly once; on the real code ~10^4 fault scenarios per run over 8 entry "
+            "points are validated by TLC against the settlement monitor plus the direct oracle (advance the clock by "
+            "recovery_timeout_s, ask for admission)",
+            "fault points are those reachable through public callbacks and coroutine suspension points",
+            "5/C08"),
+    "C09": ("model_checking",
+            "TLC exhaustive check of PolicyCall.tla against PolicyMon.tla (one record per admitted call, by final "
+            "outcome) + replay of every exported behaviour through Policy/AsyncPolicy + TLC trace validation",
+            "M |= C09 for every stop reason x both causes x call/execute x with/without retry over sequences of calls "
+            "sharing a breaker; the real entry points conform to M on every exported behaviour",
+            "breaker observed through a delegating subclass; classification without retry is the library's own "
+            "default_classifier",
+            "5/C09"),
     "C06": ("model_checking",
             "TLC exhaustive check of Breaker.tla (deque model M vs unpruned-log reference P) + replay of "
             "every transition of M's exported graph on the real CircuitBreaker + TLC trace validation "
